@@ -1160,7 +1160,8 @@ def streams_node_solve(rooms):
     def f(ctx, scale, off):
         s1, c1 = node_stream(ctx, ctx.seed + off, 250 * scale, rooms=rooms, max_c=(9 if rooms == 1 else 6))
         s2, c2 = solve_stream(ctx, ctx.seed + off + 1, 120 * scale, rooms=rooms)
-        return [s1, s2], c1 + c2
+        cs = corpus_cases(ctx, "solve") if off == 0 else []      # minimised inputs of earlier findings run first (corpus/<id>_solve.json)
+        return [s1, s2], cs + c1 + c2
     return f
 
 
